@@ -124,6 +124,16 @@ def vectAngleTailPin : String := "ac590e696a7fbe5959e5"
 /-- `vect.T / norm` of `vect_angle` for one vector. -/
 @[inline] def vdiv [Div K] (v : V3 K) (n : K) : V3 K := ⟨v.x / n, v.y / n, v.z / n⟩
 
+/-! ### `Atoms.__deepcopy__` (the copy `normalize` works on): which per-atom keys the copy has -/
+
+/-- `atype = deepcopy(view['atype']); pos = deepcopy(view['pos'])`, handed over by keyword. -/
+def atomsCopyExplicit : List String := ["atype", "pos"]
+/-- `for key in self.view: if key not in ['atype', 'pos']: d[key] = deepcopy(self.view[key])`: list membership, i.e. exact match. -/
+def atomsCopyReserved : List String := ["atype", "pos"]
+/-- keys of `Atoms(atype=atype, pos=pos, **d)`. -/
+def copyKeys (explicit reserved : List String) (keys : List String) : List String :=
+  explicit ++ keys.filter (fun k => !reserved.contains k)
+
 /-! ### statements -/
 
 inductive Stmt where
